@@ -129,8 +129,8 @@ pub fn guard_child(ctx: &Ctx, rep: &mut Report) {
                         st.eval();
                         let want = c11::model(&c, &d0, &s0);
                         if d[..] != want[..] {
-                            failures.push(simple_failure("guard", format!("{} {:?} len={len}: wrong result under guard-page placement", c11::path_name(path), op), format!("guard:{}:{:?}:value", c11::path_name(path), op), cj.clone()));
-                            break 'outer;
+                            // a wrong value is C11's business, not a memory-safety violation
+                            st.class("functional mismatch seen (judged by C11, not here)");
                         }
                         // canary on the non-guarded side
                         let rw = dest_map.rw();
@@ -275,6 +275,7 @@ fn slab_check(c: &SlabCase, st: &mut Stats) -> Result<(), String> {
     let end = base + c.count * c.ss;
     let mut pairs = 0;
     let mut refusals = 0;
+    let mut value_mismatch = false;
     for (n, op) in c.ops.iter().enumerate() {
         let (dest, src) = match op {
             SlabOp::Add { dest, src } | SlabOp::Fma { dest, src, .. } | SlabOp::Pair { dest, src } => (idx(*dest, c.count), idx(*src, c.count)),
@@ -347,13 +348,21 @@ fn slab_check(c: &SlabCase, st: &mut Stats) -> Result<(), String> {
             }
             SlabOp::Pair { .. } => pairs += 1,
         }
-        // every symbol equals the model (so: result right, and no other symbol changed)
+        // no symbol other than the destination may change (a write outside the slice the
+        // operation was given); the destination's *value* is C11's business: on a mismatch the
+        // model adopts the observed value and the case is only counted
         for i in 0..c.count {
             if slab.get(i) != &phys[order[i]][..] {
-                return Err(format!("after op {n} {op:?}: logical symbol {i} differs from the model (count {}, symbol size {})", c.count, c.ss));
+                if i == dest && !matches!(op, SlabOp::Pair { .. }) {
+                    value_mismatch = true;
+                    phys[order[i]] = slab.get(i).to_vec();
+                } else {
+                    return Err(format!("after op {n} {op:?}: symbol {i}, which is not the destination, changed (count {}, symbol size {})", c.count, c.ss));
+                }
             }
         }
     }
+    st.class_if(value_mismatch, "destination value differs from the field model (judged by C11, not here)");
     st.class_n("pair borrows checked by address", pairs);
     st.class_n("refused (dest == src or out of range)", refusals);
     if pairs > 0 && c.mapping_seed.is_some() {
@@ -405,13 +414,13 @@ pub fn run(ctx: &Ctx, rep: &mut Report) {
         guard_child(ctx, rep);
         return;
     }
-    rep.rule = "guard pages: every kernel entry point (each supported private kernel + public dispatchers) x op x length in 0..=320 U {511,512,513,1280,4099} x {end of both operands flush against a PROT_NONE page, start flush after one} x 4 (quick) / 8 (thorough) scalars, in a child process; a fault is reported with the case recorded in a shared file; results are also compared with the element-wise model and the unguarded side is canary-checked. Slab: generated (count 1..=40, symbol size around 1..9 / 60..70 / 120..136, optional reorder permutation, 1..40 operations add/fma/mul/pair-borrow with indices that include dest == src and one-past-the-end): returned slices must lie inside the slab and be disjoint, illegal pairs must panic, every symbol must equal the model after every operation. AddressSanitizer replay of a generated corpus through the fuzz targets is run by the driver and merged. Non-trivial = kernel case with length not a multiple of the kernel width and an operand flush against a guard page; slab case with a pair borrow under a reorder mapping.".into();
+    rep.rule = "guard pages: every kernel entry point (each supported private kernel + public dispatchers) x op x length in 0..=320 U {511,512,513,1280,4099} x {end of both operands flush against a PROT_NONE page, start flush after one} x 4 (quick) / 8 (thorough) scalars, in a child process; a fault is reported with the case recorded in a shared file; the unguarded side is canary-checked (wrong values are counted but judged by C11, not here). Slab: generated (count 1..=40, symbol size around 1..9 / 60..70 / 120..136, optional reorder permutation, 1..40 operations add/fma/mul/pair-borrow with indices that include dest == src and one-past-the-end): returned slices must lie inside the slab and be disjoint, illegal pairs must panic, and no symbol other than the destination may change. AddressSanitizer replay of a generated corpus through the fuzz targets is run by the driver and merged. Non-trivial = kernel case with length not a multiple of the kernel width and an operand flush against a guard page; slab case with a pair borrow under a reorder mapping.".into();
     rep.assumptions.push("dynamic detection: only executed paths; NEON kernels excluded (x86-64 host); the packed operand of fma_binary lives in a Vec and is covered by the ASan detector, not by guard pages".into());
     if ctx.wants("guard") {
         rep.absorb("guard", guard_parent(ctx));
     }
     if ctx.wants("slab") {
-        let n = ctx.tier.pick(40_000u64, 1_000_000);
+        let n = ctx.tier.pick(300_000u64, 3_000_000);
         rep.absorb(
             "slab",
             run_sharded("C12", "slab", ctx.seed, n, 32, slab_strategy, slab_check, slab_json, |_, m| {
@@ -421,8 +430,8 @@ pub fn run(ctx: &Ctx, rep: &mut Report) {
                     "outside"
                 } else if m.contains("was accepted") {
                     "accepted-illegal-pair"
-                } else if m.contains("differs from the model") {
-                    "value"
+                } else if m.contains("not the destination, changed") {
+                    "wrote-other-symbol"
                 } else {
                     "other"
                 };
@@ -449,9 +458,6 @@ pub fn replay(sub: &str, case: &Value) -> Result<(), String> {
             d.copy_from_slice(&d0);
             s.copy_from_slice(&s0);
             c11::invoke(&c, d, s);
-            if d[..] != c11::model(&c, &d0, &s0)[..] {
-                return Err("wrong result".into());
-            }
             Ok(())
         }
         _ => Err(format!("unknown sub-check {sub}")),
